@@ -125,8 +125,8 @@ fn run_g<C: Codec>(c: &Case, trace: bool) -> RunOut {
             Ok(Err(_)) => out.violate(sig("async-stuck"), "encode_async made no progress within the poll cap".to_string()),
             Err(m) => out.violate(sig("async-panic"), format!("encode_async panicked: {m}")),
         }
-        for v in core.borrow().sim_violations.iter() {
-            out.violate(sig("pending-without-transport"), v.clone());
+        for v in core.borrow().sim_violations.iter().filter(|v| v.contains(crate::sim::LOST_WAKE)) {
+            out.violate(sig("async-hang"), v.clone());
         }
     }
     // streaming body encoder into a sync sink with short writes and EINTR
